@@ -196,7 +196,7 @@ Json gen_value(Rng& r, const GenCfg& c, int depth = 0) {
     unsigned k = (unsigned)r.below(10);
     if (depth >= c.max_depth || k < 4) return gen_scalar_value<Json>(r, c);
     size_t w = r.below((u64)c.max_width + 1);
-    if (c.wide_sometimes && r.chance(1, 40)) w = 20 + r.below(300);
+    if (c.wide_sometimes && depth <= 1 && r.chance(1, 40)) w = 20 + r.below(120);
     if (k < 7) {
         Json a(jsoncons::json_array_arg);
         for (size_t i = 0; i < w; ++i) a.push_back(gen_value<Json>(r, c, depth + 1));
@@ -255,11 +255,19 @@ struct CmpCfg {
     bool nan_equal = true;
     bool zero_sign = true;          // distinguish +0.0 / -0.0
     bool tags = true;
+    bool merge_int_kinds = true;    // int64 5 and uint64 5 are the same integer
 };
 
 // Returns "" when strictly equal, else a short path-qualified reason.
 template <class J1, class J2>
 std::string strict_diff(const J1& a, const J2& b, const CmpCfg& c = CmpCfg(), const std::string& path = "$") {
+    if (c.merge_int_kinds && a.type() != b.type() && (a.type() == json_type::int64 || a.type() == json_type::uint64) && (b.type() == json_type::int64 || b.type() == json_type::uint64)) {
+        if (c.tags && norm_tag(a.tag()) != norm_tag(b.tag())) return path + ": tag " + tag_name(a.tag()) + " vs " + tag_name(b.tag());
+        // exactly one is int64; equal only if that one is non-negative and magnitudes agree
+        i64 sv = a.type() == json_type::int64 ? a.template as<i64>() : b.template as<i64>();
+        u64 uv = a.type() == json_type::uint64 ? a.template as<u64>() : b.template as<u64>();
+        return (sv >= 0 && (u64)sv == uv) ? "" : path + ": integer " + std::to_string(sv) + " vs " + std::to_string(uv);
+    }
     if (a.type() != b.type()) return path + ": type " + std::to_string((int)a.type()) + " vs " + std::to_string((int)b.type());
     if (c.tags && norm_tag(a.tag()) != norm_tag(b.tag())) return path + ": tag " + tag_name(a.tag()) + " vs " + tag_name(b.tag());
     switch (a.type()) {
